@@ -218,3 +218,11 @@ func c20r6(r *R) {
 	r.Ob("C20.R6", "instances").Check(len(rows) >= 40, "expected >= 40 tree-surgery rows, found %d", len(rows))
 	checkTable(r, "C20.R6", "h2_sched_priority_tree", rows, "priority-tree step")
 }
+
+func init() {
+	p := registry["C20"]
+	p.Rules = append(p.Rules, ruleDef{"C20.R7", func(r *R) {
+		siblingCompare(r, "C20.R7", "pkg/zz_ref_http2", schedFuncs(r.C), nil, "scheduler function")
+	}})
+	wantRefs("C20")
+}
